@@ -48,6 +48,11 @@ var c14Pool = []c14Op{
 	{Name: "intro-var-V", Q: "query ($n: String!) { __type(name: $n) { name kind } }", Vars: map[string]interface{}{"n": "V"}}, // same document, other variable value
 	{Name: "frag-on-IA", Q: "{ things { ...F } } fragment F on IA { a }"},
 	{Name: "frag-on-IB", Q: "{ things { ...F } } fragment F on IB { a }"}, // differs from the previous one in the named fragment's type condition only
+	// the same entity reached at two insertion points with different selections from the other service (two lookups of one id in one depth)
+	{Name: "same-node-two-selections", Q: "{ a: n2 { owner { name } } b: n2 { owner { calc(x: 2) } } }"},
+	// one document whose plan-relevant part hangs on a variable value: a field of another service skipped or not
+	{Name: "skip-var-true", Q: "query ($h: Boolean!) { n2 { title owner { phone name @skip(if: $h) } } }", Vars: map[string]interface{}{"h": true}},
+	{Name: "skip-var-false", Q: "query ($h: Boolean!) { n2 { title owner { phone name @skip(if: $h) } } }", Vars: map[string]interface{}{"h": false}},
 }
 
 const c14World = "W0+same-root-name-query-mutation+interface-value"
@@ -188,8 +193,8 @@ func c14ConcHarness(cached *gwHarness, want map[string]string, c1, c2 []int, ttl
 func init() {
 	Specs["C14"] = &Spec{
 		ID: "C14",
-		Rule: "sequential: every request history of length <=3 (thorough 4) over an alphabet of 23 operations built to collide in the cache key (pairs differing only in operation type, name, variable type, variable default, variable value, " +
-			"fragment body, named fragment type condition, alias, selected operation of a two-operation document, explicit vs injected id, variable present vs omitted, introspection by variable with two values; one unrelated) plus `tick` (clock jumps past the TTL), for TTL in {0, 1s, 1h}; each history is replayed on a fresh caching gateway and on a plain twin under the virtual clock " +
+		Rule: "sequential: every request history of length <=3 (thorough 4) over an alphabet of 26 operations built to collide in the cache key (pairs differing only in operation type, name, variable type, variable default, variable value, " +
+			"fragment body, named fragment type condition, alias, selected operation of a two-operation document, explicit vs injected id, variable present vs omitted, introspection by variable with two values, @skip on a field of another service driven by a variable with both values, one entity looked up twice with different selections; one unrelated) plus `tick` (clock jumps past the TTL), for TTL in {0, 1s, 1h}; each history is replayed on a fresh caching gateway and on a plain twin under the virtual clock " +
 			"and every answer compared. concurrent: two clients with 1-2 requests each from the pool on one caching gateway, every schedule with <=1 (thorough 2) preemption at client granularity (RWMutex operations visible), each answer compared with the plain twin's; " +
 			"non-trivial = history with a repeated or colliding key",
 		Assumptions: []string{"virtual clock owned by vrt (1ms passes between requests)", "subscriptions interleaved with queries are exercised by the C17/C18 harness, not here",
